@@ -9,6 +9,24 @@ from . import core
 from .core import RealisationError, SBool, SFloat, SInt, is_sym, ite, lift_float, lift_int, mk_bool
 
 
+def _boxed(x):
+    if isinstance(x, np.ndarray):
+        return x.view(np.ndarray)
+    a = np.empty((), dtype=object)
+    a[()] = x
+    return a
+
+
+def vec(f, nin, nout=1):
+    """Element-wise application with numpy broadcasting that never re-enters __array_ufunc__ dispatch."""
+    uf = np.frompyfunc(f, nin, nout)
+
+    def call(*args):
+        return uf(*[_boxed(a) for a in args])
+
+    return call
+
+
 def _plain(x):
     if isinstance(x, SArr):
         return x.view(np.ndarray)
@@ -217,7 +235,7 @@ def apply_ufunc(ufunc, method, inputs, kw):
     if method == "__call__":
         if kw.get("where", True) is not True:
             raise RealisationError("ufunc where=")
-        res = np.frompyfunc(f, ufunc.nin, 1)(*ins)
+        res = vec(f, ufunc.nin, 1)(*ins)
         if out is not None:
             o = out[0]
             o.view(np.ndarray)[...] = res
@@ -308,25 +326,77 @@ def _lt_fork(a, b) -> bool:
     return bool(a < b)
 
 
-def argsort_fork(vals):
-    """Insertion sort with forking comparisons.  Ties fork both orders (numpy's default quicksort is
-    not stable: any valid sorting permutation is admitted)."""
+def argsort_fork(vals, demonic_ties=False):
+    """Insertion sort with forking comparisons.  Default: ties keep their input order (numpy's small-array sort is an
+    insertion sort, hence stable; reported as an assumption and validated by replay).  demonic_ties=True additionally
+    forks both orders of every tie (any valid sorting permutation, for an unstable sort)."""
+    c = core.ctx()
+    c.bound_notes.add("np.argsort: ties " + ("in any order (demonic)" if demonic_ties else "in input order (stable small-array sort)"))
     order = []
     for i, v in enumerate(vals):
         pos = len(order)
-        for j, k in enumerate(order):
+        for j in range(len(order) - 1, -1, -1):
+            k = order[j]
+            # does v sort strictly before vals[k]?
             if _lt_fork(v, vals[k]):
                 pos = j
-                break
-            # tie: both orders are valid results of an unstable sort
-            if not is_sym(v) and not is_sym(vals[k]):
                 continue
-            if bool(core.feq(v, vals[k])):
-                if core.ctx().choose(f"tie-order"):
-                    pos = j
-                    break
+            if demonic_ties and (is_sym(v) or is_sym(vals[k])) and bool(core.feq(v, vals[k])) and c.choose("tie-order"):
+                pos = j
+                continue
+            break
         order.insert(pos, i)
     return np.array(order, dtype=np.intp)
+
+
+def argsort_merge(vals):
+    """argsort as merged symbolic indices (no fork).  numpy's default sort is not stable, so ties are ordered by
+    fresh pairwise-distinct tie-break keys (every valid sorting permutation is admitted); the stable order is
+    registered as a *preference* used only when a counterexample model is extracted.  NaN sorts last."""
+    c = core.ctx()
+    n = len(vals)
+    if n <= 1 or not any(is_sym(v) for v in vals):
+        return np.argsort(np.array([float(v) for v in vals], dtype=np.float64)) if n else np.array([], dtype=np.intp)
+    tag = c.fresh_name("tie")
+    ts = []
+    for i in range(n):
+        t = SInt(z3.BitVec(f"{tag}.{i}", 32) if c.profile == "fp" else z3.Int(f"{tag}.{i}"))
+        c.assume(core.land(t >= 0, t <= n - 1))
+        ts.append(t)
+        c.aux_decls[f"{tag}.{i}"] = ("int", t.e)
+        c.preferences.append((t == i).e if is_sym(t == i) else z3.BoolVal(True))
+    for i in range(n):
+        for j in range(i + 1, n):
+            c.assume(ts[i] != ts[j])
+    nan = [core.isnan(v) for v in vals]
+
+    def before(i, j):
+        vi, vj = vals[i], vals[j]
+        lt = vi < vj
+        eq = core.feq(vi, vj)
+        both_nan = core.land(nan[i], nan[j])
+        tie = core.lor(eq, both_nan)
+        return core.lor(core.land(core.lnot(nan[i]), nan[j]), core.land(iff_(nan[i], nan[j]), core.lor(lt, core.land(tie, ts[i] < ts[j]))))
+
+    ranks = []
+    for i in range(n):
+        r = 0
+        for j in range(n):
+            if j != i:
+                b = before(j, i)
+                r = (lift_int(b) if is_sym(b) else int(bool(b))) + r
+        ranks.append(r)
+    order = np.empty(n, dtype=object)
+    for pos in range(n):
+        acc = n - 1
+        for i in range(n - 2, -1, -1):
+            acc = _ite_any(ranks[i] == pos, i, acc)
+        order[pos] = acc
+    return order.view(SArr)
+
+
+def iff_(a, b):
+    return core.iff(a, b)
 
 
 def argbest_merge(vals, better):
@@ -365,7 +435,7 @@ def implements(*funcs):
 def _where(cond, x=None, y=None):
     if x is None:
         raise RealisationError("np.where(cond) with one argument")
-    res = np.frompyfunc(_ite_any, 3, 1)(_objarr(cond), _objarr(x), _objarr(y))
+    res = vec(_ite_any, 3, 1)(_objarr(cond), _objarr(x), _objarr(y))
     return wrap(res)
 
 
@@ -385,9 +455,9 @@ def _clip(a, a_min=None, a_max=None, out=None, **kw):
 
     r = _objarr(a)
     if a_min is not None:
-        r = np.frompyfunc(cmax, 2, 1)(r, _objarr(a_min))
+        r = vec(cmax, 2, 1)(r, _objarr(a_min))
     if a_max is not None:
-        r = np.frompyfunc(cmin, 2, 1)(r, _objarr(a_max))
+        r = vec(cmin, 2, 1)(r, _objarr(a_max))
     return wrap(r)
 
 
@@ -422,7 +492,7 @@ def _mean(a, axis=None, dtype=None, out=None, keepdims=False, **kw):
     s = reduce_obj(lambda x, y: x + y, a, axis, keepdims, None, np.add)
     n = a.size if axis is None else a.shape[axis]
     if isinstance(s, np.ndarray):
-        return wrap(np.frompyfunc(lambda v: v / float(n), 1, 1)(s))
+        return wrap(vec(lambda v: v / float(n), 1, 1)(s))
     return s / float(n)
 
 
@@ -471,7 +541,10 @@ def _argsort(a, axis=-1, kind=None, order=None, **kw):
     a = _objarr(a)
     if a.ndim != 1:
         raise RealisationError("argsort of a non 1-D symbolic array")
-    return argsort_fork(list(a))
+    mode = core.ctx().argsort_mode
+    if mode == "merge":
+        return argsort_merge(list(a))
+    return argsort_fork(list(a), demonic_ties=(mode == "fork-ties"))
 
 
 @implements(np.sort)
@@ -479,7 +552,7 @@ def _sort(a, axis=-1, kind=None, order=None, **kw):
     a = _objarr(a)
     if a.ndim != 1:
         raise RealisationError("sort of a non 1-D symbolic array")
-    return wrap(a[argsort_fork(list(a))])
+    return wrap(a[argsort_fork(list(a), demonic_ties=(core.ctx().argsort_mode == 'fork-ties'))])
 
 
 @implements(np.isclose)
@@ -495,7 +568,7 @@ def _isclose(a, b, rtol=1e-05, atol=1e-08, equal_nan=False):
             return close
         return _ite_any(fin, close, x == y)
 
-    return wrap(np.frompyfunc(f, 2, 1)(_objarr(a), _objarr(b)))
+    return wrap(vec(f, 2, 1)(_objarr(a), _objarr(b)))
 
 
 @implements(np.array_equal)
@@ -503,7 +576,7 @@ def _array_equal(a1, a2, equal_nan=False):
     a1, a2 = _objarr(a1), _objarr(a2)
     if np.shape(a1) != np.shape(a2):
         return False
-    eq = np.frompyfunc(lambda x, y: x == y, 2, 1)(a1, a2)
+    eq = vec(lambda x, y: x == y, 2, 1)(a1, a2)
     return reduce_obj(_land, np.asarray(eq, dtype=object), None, False, None, np.logical_and)
 
 
@@ -605,7 +678,7 @@ class SArr(np.ndarray):
     def __setitem__(self, idx, value):
         k = classify_index(idx)
         value = _plain(value)
-        if isinstance(value, (list, tuple)) and has_sym(value):
+        if isinstance(value, (list, tuple)):
             value = to_obj_array(value)
         base = self.view(np.ndarray)
         if k == "plain":
@@ -616,7 +689,7 @@ class SArr(np.ndarray):
                 # scalar assignment under a symbolic mask: merge, no fork
                 m = _objarr(idx)
                 mb = np.broadcast_to(m.reshape(m.shape + (1,) * (base.ndim - m.ndim)), base.shape)
-                new = np.frompyfunc(_ite_any, 3, 1)(mb, value, base)
+                new = vec(_ite_any, 3, 1)(mb, value, base)
                 base[...] = new
                 return
             m = concretise_mask(idx)
@@ -764,7 +837,7 @@ def _select_axis0(base, i):
     for k in range(n - 2, -1, -1):
         c = i == k
         if isinstance(acc, np.ndarray):
-            acc = np.frompyfunc(_ite_any, 3, 1)(c, base[k], acc)
+            acc = vec(_ite_any, 3, 1)(c, base[k], acc)
         else:
             acc = _ite_any(c, base[k], acc)
     return acc
